@@ -17,6 +17,7 @@ CHECKS = {
     'C14': dict(level='exploration', runs=_e1v('C14', 'h_k2', ('ref', 'obl', 'asan')), percase=5, deadline=dict(quick=150, thorough=1500)),
     'C17': dict(level='exploration', runs=_e1v('C17', 'h_k3', ('ref', 'asan')), percase=5, deadline=dict(quick=150, thorough=1500)),
     'C18': dict(level='exploration', runs=_e1v('C18', 'h_k4', ('ref', 'asan')), percase=5, deadline=dict(quick=60, thorough=300)),
+    'C16': dict(level='exploration', runs=_e1v('C16', 'h_rd', ('ref', 'asan')), percase=5, deadline=dict(quick=100, thorough=600)),
     'C12': dict(level='exploration', runs=_e1('C12', 'h_e1x'), percase=5, deadline=dict(quick=150, thorough=1500)),
     'C13': dict(level='exploration', runs=_e1('C13', 'h_e1x'), percase=5, deadline=dict(quick=150, thorough=1500)),
     'C06': dict(level='model_checking', runs=_e1('C06', 'h_e3'), percase=20, deadline=dict(quick=150, thorough=1500),
@@ -91,3 +92,7 @@ META['C17'] = dict(engine='E1 small-scope enumerator', design_ref='5/C17', techn
 META['C18'] = dict(engine='E1 small-scope enumerator', design_ref='5/C18', technique='exhaustive enumeration of the (routine, single-argument corruption) table on real calls with bitwise snapshot oracle',
     text='For xgssv, xgssvx, xgsisx, xgstrs, xgsrfs, xgscon, xgsequ, sp_xtrsv every documented single-argument corruption (non-square / negative dimension, each wrong Stype/Dtype/Mtype, lda<n, ncol<0, option values above and below their enumeration, lwork<-1, bad equed letter or non-positive R/C with pre-computed factors, X/B column mismatch, bad norm/flag letters) is applied to 3 base matrices x 4 types x {fresh, pre-factored} x {NC, NR}: info = -(position), A, B, X, permutations, etree, R, C, L, U, ferr/berr bit-identical to their snapshot, allocation ledger unchanged.',
     note='The table is the space. equed is excluded from the snapshot (a fresh call resets it before validating, and it is an output). Runs also under ASan/UBSan. F23 (wrong position for an illegal B) was repaired by a fix: commit.')
+
+META['C16'] = dict(engine='E1 small-scope enumerator', design_ref='5/C16', technique='bounded exhaustive enumeration of matrices x file encodings produced by a reference writer, parsed by the real readers',
+    text='Matrices (all patterns of order <=3, deviation-1 neighbourhoods of 5x5 bases, values needing full precision) x encodings: Harwell-Boeing and Rutherford-Boeing with four integer formats, six value formats (E, D exponent, 1P scale, F editing, 17 digits), with/without right-hand-side block, general and symmetric storage with all/some/no diagonal entries stored; Matrix Market general/symmetric with comment lines and every entry order (all permutations for <=4 entries); triplet files with and without header, 1- and 0-based; real and complex, single and double. Dimensions, nnz, pattern and values (strtod of the printed field) must match; red zones / ASan guard the arrays; exactly the three result arrays stay allocated.',
+    note='kP with F editing is left out (the reader documents that it skips the scale factor). 0-based coordinate files are in the premise only when the reader\'s own detection rule (a zero index in the first entry / anywhere for the header-less reader) applies. F6, F24, F25 were repaired by fix: commits.')
